@@ -54,16 +54,24 @@ def canonicalize_url(
     if strip_fragment:
         fragment = None
 
+    # Path normalization
+    # NOTE: an escaped dot is still a dot segment (escapes are already uppercase)
+    path = path.replace("%2E", ".")
+
+    if path and path != "/":
+        # NOTE: `normpath` drops the trailing slash, which is significant
+        trailing_slash = path.rsplit("/", 1)[-1] in ("", ".", "..")
+        path = normpath(path)
+
+        if trailing_slash and path:
+            path += "/"
+
     # Empty path etc.
     if not path or path == "/":
         if not query and not fragment:
             path = ""
         else:
             path = "/"
-
-    # Path normalization
-    else:
-        path = normpath(path)
 
     # Quotes
     if user:
